@@ -245,9 +245,10 @@ def c18_variants(prop, tier, seed, outdir):
     lines = {}
     partial = set()
     tmo = int(os.environ.get("VERIF_TIMEOUT", "5400" if tier == "thorough" else "900"))
+    deadline = time.time() + tmo  # one shared deadline: the variants run in parallel
     for tags, (p, tf) in procs.items():
         try:
-            outp, _ = p.communicate(timeout=tmo)
+            outp, _ = p.communicate(timeout=max(1.0, deadline - time.time()))
         except subprocess.TimeoutExpired:
             p.kill()
             res["inconclusive"].append("ctprog variant [%s]: watchdog fired; its partial transcript is still compared" % tags)
